@@ -303,6 +303,11 @@ def c10(ck, thorough):
     mc(ck, "ACSearch", "c10_search", search_consts(ALLK, [False, True], [False], [False, True], thorough),
        SEARCH_INV, ["PositionMonotone"])
     calls(ck, "c10_span", "span", scale=8 if thorough else 1, mks=ALLK, an="both", flav="all")
+    # the span a search sees is whatever the Input setters left behind: Input as a state machine
+    mc(ck, "ACInput", "c10_input", {"MaxLen": 4 if thorough else 3, "MaxArg": 6 if thorough else 5},
+       ["SpanInBounds", "DoneIsOnePast"], ["LenFixed", "PanicKeeps", "FlagsKept"], min_states=100)
+    events_trace(ck, "c10_inputops", "inputops", ["--scale", 8 if thorough else 1], "TraceInput", "TraceInput.cfg",
+                 "input-history", shards=4)
 
 
 def ci_consts(d, big=False):
